@@ -16,7 +16,12 @@ package signinit
 //@   modifies map(info.Attributes)
 //@
 //@ func InitKey
-//@   property C06
+//@   property C06 C07
+//@   ghost tokenKey token.Key = nil
+//@   ghost asked bool = false
+//@   on call invoke token.Token.GetKey(t, _, n) ret (k, e): tokenKey = k; asked = (t == tok && n == keyName && e == nil)
+//@   before call certloader.LoadTokenCertificates(k, _, _, _): assert @certificates_loaded_for_the_requested_key asked && k == iface(tokenKey)
+//@   ensures @bundle_is_for_the_requested_key ret2 == nil ==> asked && ret0.KeyName == keyName
 //@   ensures @usable_results ret2 == nil ==> ret0 != nil && ret1 != nil
 //@
 //@ func Init
